@@ -143,6 +143,11 @@ func main() {
 		}
 		run.Finish(0)
 	}
+	for k := 0; k < run.N(20000, 600000) && !run.Enough(); k++ {
+		if txt, ok := vx.Try(func() { pdCase(k) }); !ok {
+			run.Violation("piece-downloader-panics", fmt.Sprintf("pd case %d: %s", k, txt), nil)
+		}
+	}
 	n := run.N(640, 12000)
 	children := 16
 	per := (n + children - 1) / children
